@@ -194,6 +194,47 @@ pub fn run(ctx: &mut Ctx) {
             }
         }
 
+        // the *_opt entry points (fixed nonce): same access rules
+        {
+            ctx.eval();
+            ctx.count("opt_entry_points");
+            let nonce = bc_components::Nonce::from_data([7u8; 12]);
+            let encs2: Vec<&dyn Encrypter> = listed.iter().map(|k| &k.pk as &dyn Encrypter).collect();
+            let ck2 = SymmetricKey::new();
+            let use_batch = rng.chance(1, 2);
+            match trap::guard(|| {
+                if use_batch {
+                    e.encrypt_subject_to_recipients_opt(&encs2, Some(&nonce))
+                } else {
+                    // one recipient at a time through add_recipient_opt / encrypt_subject_to_recipient_opt
+                    let mut x = if encs2.len() == 1 { return e.encrypt_subject_to_recipient_opt(encs2[0], Some(&nonce)) } else { e.encrypt_subject(&ck2)? };
+                    for k in &listed {
+                        x = x.add_recipient_opt(&k.pk, &ck2, Some(&nonce));
+                    }
+                    Ok(x)
+                }
+            }) {
+                Ok(Ok(x)) => {
+                    for k in &listed {
+                        match x.decrypt_subject_to_recipient(&k.sk) {
+                            Ok(d) => {
+                                if !d.subject().is_identical_to(&e.subject()) {
+                                    ctx.violation("opt/wrong-subject", "recipient decrypted something else through the _opt entry points", replay());
+                                }
+                            }
+                            Err(err) => ctx.violation("opt/cannot-decrypt", &format!("listed recipient ({}) cannot decrypt an envelope made with the _opt entry points: {}", k.scheme, err), replay()),
+                        }
+                    }
+                    if let Some(u) = unlisted.first() {
+                        if x.decrypt_subject_to_recipient(&u.sk).is_ok() {
+                            ctx.violation("opt/unlisted-decrypted", "an unlisted key decrypted", replay());
+                        }
+                    }
+                }
+                Ok(Err(err)) => ctx.violation("opt/err", &format!("{}", err), replay()),
+                Err(p) => ctx.violation(&format!("opt/panic/{}", p.signature()), &format!("{:?}", p), replay()),
+            }
+        }
         // wrap-and-encrypt form
         let k = listed[0];
         ctx.eval();
